@@ -188,6 +188,14 @@ def gen_cases(rng, quick):
             seq = [rng.choice(READONLY), WRITERS[1], rng.choice(READONLY)]
         data = ('tally/' if layout == 'new' else '') + 'data/bank.csv'
         cmds = [[(data if a == 'DATA' else a) for a in argv] for argv, _ in seq]
+        # how the command is pointed at the budget: found from the working directory (nothing said), or the config directory NAMED on the
+        # command line the way people and shells spell a directory - bare, with a trailing separator (tab completion), './', doubled
+        # separators, '/.', absolute with and without the trailing separator.  The same directory, so the same files may change.
+        cfg = ('tally/' if layout == 'new' else '') + 'config'
+        for argv in cmds:
+            if argv[0] in ('up', 'discover', 'diag', 'explain') and '--migrate' not in argv and rng.random() < 0.4:
+                argv.append(rng.choice([cfg, cfg + '/', './' + cfg, './' + cfg + '/', cfg + '//', cfg + '/.', '{ROOT}/' + cfg, '{ROOT}/' + cfg + '/',
+                                        cfg + '/../' + cfg.split('/')[-1] + '/']))
         cases.append(dict({'kind': 'c20', 'shape': s, 'layout': layout, 'commands': cmds, 'programs': [p for _, p in seq]},
                           **gen_variation(rng, s, layout, force_ruleless=forced)))
     return cases
